@@ -353,6 +353,15 @@ class SyncInterpreter(BaseInterpreter[TContext, TEvent]):
         limit = getattr(self.machine, "max_iterations", 1000)
         try:
             while self._event_queue:
+                # 🏁 Completion (or failure) ends processing: `send()` already
+                #    refuses new events once the machine is done, but events
+                #    that were queued *before* it completed (raised by an
+                #    action, batched via `send_events`) were still run against
+                #    the finished machine. The async run loop stops at this
+                #    point, so the two engines disagreed as well.
+                if self.status != "running":
+                    self._event_queue.clear()
+                    break
                 processed += 1
                 if processed > limit:
                     logger.error(
